@@ -27,6 +27,19 @@ lists comma separated with `-` for the empty list, fees `n` (nil) or `r:c:s`, de
   (`put` / `del` run the same joint model; `put` stores a placeholder message.)
   hasest <requireGasEstimation 0|1> <estimate>
       → `true` | `false` of `filters.HasGasEstimate` (is the message offered to relayers)
+  bdep reset                                            → ok
+  bdep chain <c> <activeId> <uid> <record>              → ok        (observed state of chain c)
+  bdep activate <c> <scId> <uid>                        → `chain <activeId> <uid> <record>` | `nochain`
+  bdep build <c> <token> <dests> <txTokens> <amounts> <nonce> <timeout> <relayerBytes>
+      → `ok <64 hex digits>` (BytesToSign as issued) | `nochain` | `dup` | `rejected`
+  bdep elect <token> <nonce> <estimate>
+      → `ok <64 hex digits>` (BytesToSign as RE-issued) | `notfound` | `already` | `nochain` | `rejected`
+  bdep reimport                                         → ok        (skyway genesis round trip)
+  bdep rec <c>                                          → `rec <record>`
+  bdep uv <c> <relayer> <id> <estimate> <validators> <powers> <valsetId>
+      → 64 hex digits | `nochain`: `GetBytesToSign` of an UpdateValset message the evm keeper queued for chain c
+        (`depMsgBytes`: the line carries no deployment id, the model takes the one of its chain info)
+      model `depStep`: the deployment id inside the bytes is the one of the MODEL's chain info
 -/
 
 def parseBytes? (s : String) : Option Bytes :=
@@ -105,6 +118,7 @@ def parseBatch? (args : List String) : Option (Bytes × GoBatch) :=
 
 structure State where
   j : JqSt := {}
+  dep : DepSt := {}
 
 def init : State := {}
 
@@ -114,9 +128,50 @@ def showIdRes (r : IdRes) : String :=
   | .notFound => "notfound"
   | .zeroId => "zeroid"
 
+def showX (b : Bytes) : String := "x" ++ toHex b
+
+def showDep (o : DepOut) : String :=
+  match o with
+  | .ok => "ok"
+  | .chain a u r => s!"chain {a} {showX u} {showX r}"
+  | .bytes d => "ok " ++ showDigest d
+  | .record r => "rec " ++ showX r
+  | .noChain => "nochain"
+  | .notFound => "notfound"
+  | .already => "already"
+  | .dup => "dup"
+  | .rejected => "rejected"
+
+def parseDep? (args : List String) : Option DepOp :=
+  match args with
+  | ["chain", c, a, uid, r] => do
+    pure (.setChain (← parseNat? c) (← parseNat? a) (← parseBytes? uid) (← parseBytes? r))
+  | ["activate", c, sc, uid] => do pure (.activate (← parseNat? c) (← parseNat? sc) (← parseBytes? uid))
+  | ["build", c, tok, dests, txt, amts, nonce, timeout, rel] => do
+    let b ← parseBatch? ["x", tok, dests, txt, amts, nonce, timeout, rel, "0"]
+    pure (.build (← parseNat? c) b.2)
+  | ["elect", tok, nonce, est] => do pure (.elect (← parseBytes? tok) (← parseNat? nonce) (← parseNat? est))
+  | ["reimport"] => some .reimport
+  | ["rec", c] => do pure (.getRec (← parseNat? c))
+  | _ => none
+
 def step (st : State) (args : List String) : State × String :=
   match args with
   | ["reset"] => (init, "ok")
+  | ["bdep", "reset"] => ({ st with dep := {} }, "ok")
+  | "bdep" :: "uv" :: c :: rel :: id :: est :: rest =>
+    match parseNat? c, parseMsg? ("uv" :: "x" :: rel :: id :: est :: rest) with
+    | some c, some m =>
+      match depMsgBytes keccakNat st.dep c m with
+      | some r => (st, showSign r)
+      | none => (st, "nochain")
+    | _, _ => (st, "bad-op")
+  | "bdep" :: rest =>
+    match parseDep? rest with
+    | some op =>
+      let r := depStep keccakNat st.dep op
+      ({ st with dep := r.1 }, showDep r.2)
+    | none => (st, "bad-op")
   | ["put", q, r] =>
     match parseNat? q, parseNat? r with
     | some q, some r =>
